@@ -237,49 +237,89 @@ func c15Oracle(tr *Trace, out *kit.Outcome) bool {
 					out.Violate("C15/init/extension-line-missing", "initialisation #%d launched extension %q but emitted no status line for it", i, name)
 					return false
 				}
-				// ground truth from the extension's own calls before the line
-				var reg, nxt, ierr, ierrIssued *Event
+				// ground truth from the extension's own calls. All status lines of one initialisation are computed from one
+				// snapshot of the extensions' states, taken after the outcome of the initialisation was known and before the
+				// first line was emitted: the calls that had returned by the first fault of the initialisation are certainly in
+				// it, those made after the first line certainly not, those in between may or may not be (an extension that
+				// registers while a sibling's init error is being handled was seen reported as "Started" a moment after its
+				// registration had been answered)
 				failLaunch, _ := ex.Extra["fail"].(bool)
+				hi := s.extLines[0].Seq
+				lo := hi
 				for k := range tr.Events {
 					e := &tr.Events[k]
-					if e.Proc != p || e.Seq > line.Seq {
+					if e.Seq <= s.start.Seq || e.Seq >= hi {
 						continue
 					}
-					if e.Kind == "return" && e.Call == "ext.register" && e.Status == 200 {
-						reg = e
+					abnormal := e.Kind == "sup.died" || e.Kind == "exit" || (e.Kind == "sup.exec" && e.Extra["fail"] == true) ||
+						(e.Kind == "issue" && (e.Call == "ext.initerror" || e.Call == "ext.exiterror" || e.Call == "rt.initerror")) ||
+						(e.Kind == "hook.hit" && (strings.HasPrefix(e.Call, "reset.") || e.Call == "invoke.timeoutFired"))
+					if abnormal {
+						lo = e.Seq
+						break
 					}
-					if e.Kind == "issue" && e.Call == "ext.next" {
-						nxt = e
+				}
+				var reg *Event
+				allowedAt := func(cut int64) map[string]bool {
+					var nxt, ierr, ierrIssued *Event
+					reg = nil
+					for k := range tr.Events {
+						e := &tr.Events[k]
+						if e.Proc != p || e.Seq > cut {
+							continue
+						}
+						if e.Kind == "return" && e.Call == "ext.register" && e.Status == 200 {
+							reg = e
+						}
+						if e.Kind == "issue" && e.Call == "ext.next" {
+							nxt = e
+						}
+						if e.Kind == "return" && e.Call == "ext.initerror" && e.Status == 202 {
+							ierr = e
+						}
+						if e.Kind == "issue" && e.Call == "ext.initerror" {
+							ierrIssued = e // the report takes effect when its headers arrive; its body may still be on the way
+						}
 					}
-					if e.Kind == "return" && e.Call == "ext.initerror" && e.Status == 202 {
-						ierr = e
+					allowed := map[string]bool{}
+					switch {
+					case failLaunch:
+						allowed["LaunchError"] = true
+					case ierr != nil:
+						allowed["InitError"] = true
+					case ierrIssued != nil:
+						allowed["InitError"], allowed["Registered"] = true, true // a report in flight may or may not have landed
+					case nxt != nil:
+						allowed["Ready"], allowed["Registered"], allowed["Running"] = true, true, true // the poll may not have landed yet
+					case reg != nil:
+						allowed["Registered"] = true
+					default:
+						allowed["Started"], allowed["Registered"] = true, true // a registration in flight may have landed
 					}
-					if e.Kind == "issue" && e.Call == "ext.initerror" {
-						ierrIssued = e // the report takes effect when its headers arrive; its body may still be on the way
-					}
+					return allowed
 				}
 				state := xs(line, "state")
-				allowed := map[string]bool{}
-				switch {
-				case failLaunch:
-					allowed["LaunchError"] = true
-				case ierr != nil:
-					allowed["InitError"] = true
-				case ierrIssued != nil:
-					allowed["InitError"], allowed["Registered"] = true, true // a report in flight may or may not have landed
-				case nxt != nil:
-					allowed["Ready"], allowed["Registered"], allowed["Running"] = true, true, true // the poll may not have landed yet
-				case reg != nil:
-					allowed["Registered"] = true
-				default:
-					allowed["Started"], allowed["Registered"] = true, true // a registration in flight may have landed
+				allowed := allowedAt(hi)
+				regAtLine := reg
+				if lo < hi {
+					for k := range tr.Events {
+						if e := &tr.Events[k]; e.Seq >= lo && e.Seq < hi && (e.Proc == p || e.Seq == lo) {
+							for st := range allowedAt(e.Seq) {
+								if !allowed[st] {
+									allowed[st] = true
+									out.Label("extension-line:snapshot-window")
+								}
+							}
+						}
+					}
 				}
+				reg = regAtLine
 				if len(s.rtDone) == 1 && xs(s.rtDone[0], "status") == "success" && s.report != nil && !failLaunch && !resetBefore && len(faults) == 0 {
 					// the initialisation completed: it waited for every extension to be ready
 					allowed = map[string]bool{"Ready": true}
 				}
 				if !allowed[state] {
-					out.Violate("C15/init/extension-state", "status line of %q says %q; its own calls so far (registered=%v, polled=%v, init/error=%v, launch failed=%v) allow %v", name, state, reg != nil, nxt != nil, ierr != nil, failLaunch, sortedKeys(allowed))
+					out.Violate("C15/init/extension-state", "status line of %q says %q; its own calls between the first fault of the initialisation (seq %d) and the first status line (seq %d) (registered=%v, launch failed=%v) allow %v", name, state, lo, hi, reg != nil, failLaunch, sortedKeys(allowed))
 					return false
 				}
 				if reg != nil {
@@ -291,7 +331,13 @@ func c15Oracle(tr *Trace, out *kit.Outcome) bool {
 						}
 					}
 					got := fmt.Sprint(line.Extra["events"])
-					if issue != nil && !sameEventSet(got, issue) {
+					if state == "Started" {
+						// the snapshot precedes the registration: nothing is subscribed yet
+						if got != "[]" {
+							out.Violate("C15/init/extension-subscriptions", "status line of %q says it has not registered yet (Started) but lists subscriptions %s", name, got)
+							return false
+						}
+					} else if issue != nil && !sameEventSet(got, issue) {
 						out.Violate("C15/init/extension-subscriptions", "status line of %q lists subscriptions %s; it registered with %s", name, got, issue.Text)
 						return false
 					}
